@@ -2,6 +2,7 @@
 from __future__ import annotations
 
 import copy
+import random
 from typing import Any, Dict, List
 
 from . import from_tlc, gen_asgi, gen_h1, gen_h2, gen_limits, gen_proto, gen_shutdown, gen_worker, gen_ws, gen_wsgi
@@ -23,6 +24,16 @@ def sampled(gen, n: int):
     return g
 
 
+def always(gen, prefixes):
+    """the families of another property's generator that must not be left to sampling"""
+    def g(tier, rng):
+        return [sc for sc in gen(tier, random.Random(0)) if str(sc.get("fam", "")).startswith(tuple(prefixes))]
+    return g
+
+
+C06_FIXED = always(gen_h1.gen_c06, ("c06/ignored-upgrade", "c06/message-goes-wrong"))
+
+
 H1_DESIGN = [
     {"module": "MC_H1Conn", "cfg": "MC_H1Conn_quick.cfg"},
     {"module": "MC_H1Conn", "cfg": "MC_H1Conn_thorough.cfg", "tier": "thorough", "timeout": 7200},
@@ -38,18 +49,19 @@ H1_GEN = [from_tlc.gen_h1_from_spec]
 H1_GRAPH = [from_tlc.gen_h1_from_graph]
 
 PROPS: Dict[str, Dict[str, Any]] = {
-    "C01": {"monitor": "C01", "generators": [gen_h1.gen_c01, gen_h2.gen_h2_basic, sampled(gen_h1.gen_c06, 400)] + H1_GEN, "design": H1_DESIGN},
-    "C02": {"monitor": "C02", "generators": [gen_h1.gen_c02, gen_h2.gen_h2_basic, sampled(gen_h1.gen_c06, 400), gen_h2.gen_flow] + H1_GEN, "design": H1_DESIGN},
-    "C03": {"monitor": "C03", "generators": [gen_h1.gen_c03, gen_h2.gen_h2_faults, sampled(gen_h2.gen_release, 150)] + H1_GEN + H1_GRAPH, "design": H1_DESIGN,
+    "C01": {"monitor": "C01", "generators": [gen_h1.gen_c01, gen_h2.gen_h2_basic, sampled(gen_h1.gen_c06, 400), C06_FIXED] + H1_GEN, "design": H1_DESIGN},
+    "C02": {"monitor": "C02", "generators": [gen_h1.gen_c02, gen_h2.gen_h2_basic, sampled(gen_h1.gen_c06, 400), C06_FIXED, gen_h2.gen_flow] + H1_GEN, "design": H1_DESIGN},
+    "C03": {"monitor": "C03", "generators": [gen_h1.gen_c03, gen_h2.gen_h2_faults, sampled(gen_h2.gen_release, 150), sampled(gen_ws.gen_c11, 120),
+                                               from_tlc.gen_ws_from_graph] + H1_GEN + H1_GRAPH, "design": H1_DESIGN,
             "deviations": [_dev("DevDoubleLog", "AtMostOneAccess"), _dev("DevParked", "Released")]},
     "C05": {"parts": [
-        {"monitor": "C05", "generators": [gen_h1.gen_c05, gen_h2.gen_h2_faults] + H1_GEN, "design": H1_DESIGN},
+        {"monitor": "C05", "generators": [gen_h1.gen_c05, gen_h2.gen_h2_faults, gen_h2.gen_refused_start] + H1_GEN, "design": H1_DESIGN},
         # a WSGI application is an application too: the adapter must hand its failure on unfinished
         {"monitor": "C05W", "generators": [gen_wsgi.gen_c05w], "runner": "wsgi", "workers": ["wsgi"], "selftest": "C05W"},
     ]},
     "C06": {"monitor": "C06", "generators": [gen_h1.gen_c06] + H1_GEN + H1_GRAPH, "design": [dict(H1_DESIGN[0], coverage=True)] + H1_DESIGN[1:],
             "deviations": [_dev("DevDiscPutBlocks", "Released")]},
-    "C07": {"monitor": "C07", "generators": [gen_h1.gen_c07, gen_h2.gen_h2_faults, sampled(gen_h1.gen_c06, 400)] + H1_GEN + H1_GRAPH, "design": H1_DESIGN,
+    "C07": {"monitor": "C07", "generators": [gen_h1.gen_c07, gen_h2.gen_h2_faults, sampled(gen_h1.gen_c06, 400), C06_FIXED] + H1_GEN + H1_GRAPH, "design": H1_DESIGN,
             "deviations": [_dev("DevParked", "Released"), _dev("DevIdleKeeps", "Released"),
                            _dev("DevDiscPutBlocks", "Released")]},
 }
@@ -58,6 +70,9 @@ PROPS: Dict[str, Dict[str, Any]] = {
 def flat_c13(tier, rng):
     """the openings of C13, each segmentation as a script of its own"""
     for sc in gen_proto.gen_c13(tier, rng):
+        if "variants" not in sc:
+            yield sc
+            continue
         for i, steps in enumerate(sc["variants"]):
             sub = {k: v for k, v in sc.items() if k != "variants"}
             sub["steps"] = steps
@@ -66,7 +81,7 @@ def flat_c13(tier, rng):
 
 
 PROPS["C04"] = {"monitor": "C04", "generators": [gen_h2.gen_unusual, gen_h2.gen_priority, gen_h2.gen_h2_faults, gen_h1.gen_c06, gen_ws.gen_c10,
-                                                 gen_ws.gen_c11, flat_c13, gen_limits.gen_c18] + H1_GEN}
+                                                 gen_ws.gen_c11, flat_c13, gen_proto.gen_h2c_odd_settings, gen_limits.gen_c18] + H1_GEN}
 H2_DESIGN = [
     {"module": "MC_H2Conn", "cfg": "MC_H2Conn_quick.cfg"},
     {"module": "MC_H2Conn", "cfg": "MC_H2Conn_grow.cfg"},
@@ -83,7 +98,8 @@ PROPS["C08"] = {"monitor": "C08", "generators": [gen_h2.gen_release, gen_h2.gen_
                 "deviations": [_h2dev("DevLowWater", "Bounded", "MC_H2Conn_grow.cfg"), _h2dev("DevCloseNoRelease", "NoStuckSend"),
                                _h2dev("DevResetNoRelease", "NoStuckSend")]}
 # (action coverage of the design instance is measured where the property is about that design: C06, C09)
-PROPS["C09"] = {"monitor": "C09", "generators": [gen_h2.gen_flow, gen_h2.gen_release, gen_h2.gen_h2_basic, from_tlc.gen_h2_from_spec, from_tlc.gen_h2_from_graph],
+PROPS["C09"] = {"monitor": "C09", "generators": [gen_h2.gen_flow, gen_h2.gen_release, gen_h2.gen_h2_basic, gen_h2.gen_unusual,
+                                                 from_tlc.gen_h2_from_spec, from_tlc.gen_h2_from_graph],
                 "design": [dict(H2_DESIGN[0], coverage="strict")] + H2_DESIGN[1:]}
 WS_DESIGN = [{"module": "MC_WSock", "cfg": "MC_WSock_quick.cfg", "coverage": "strict"}]
 
@@ -92,8 +108,8 @@ def _wsdev(dev: str, expect: str) -> Dict[str, Any]:
     return {"module": "MC_WSock", "cfg": "MC_WSock_quick.cfg", "dev": dev, "expect": expect}
 
 
-PROPS["C10"] = {"monitor": "C10", "generators": [gen_ws.gen_c10, from_tlc.gen_ws_from_graph], "design": WS_DESIGN,
-                "deviations": [_wsdev("DevAfterClose", "NoCrash")]}
+PROPS["C10"] = {"monitor": "C10", "generators": [gen_ws.gen_c10, from_tlc.gen_ws_from_graph, gen_proto.gen_ws_early], "design": WS_DESIGN,
+                "deviations": [_wsdev("DevAfterClose", "NoCrash"), _wsdev("DevClosedLate", "NoCrash")]}
 PROPS["C11"] = {"monitor": "C11", "generators": [gen_ws.gen_c11, from_tlc.gen_ws_from_graph], "design": WS_DESIGN,
                 "deviations": [_wsdev("DevCodeLost", "DisconnectCode"), _wsdev("DevConnectedEarly", "NoStrayFrames")]}
 PROPS["C12"] = {"monitor": "C12", "generators": [gen_asgi.gen_c12],
@@ -105,7 +121,7 @@ def gen_c16(tier, rng):
     """The sessions of C01-C13 (a seeded sample in the quick tier), each executed on both workers."""
     pools = [gen_h1.gen_c01, gen_h1.gen_c02, gen_h1.gen_c06, gen_h1.gen_c03, gen_h1.gen_c07, gen_h2.gen_h2_basic,
              gen_h2.gen_flow, gen_h2.gen_release, gen_h2.gen_unusual, gen_h2.gen_h2_faults, gen_ws.gen_c10, gen_ws.gen_c11,
-             gen_asgi.gen_c12, from_tlc.gen_h1_from_spec]
+             gen_asgi.gen_c12, from_tlc.gen_h1_from_spec, gen_proto.gen_ws_early]
     for gen in pools:
         # (the self-cancel ending exists on asyncio only: not the "same application behaviour")
         scripts = [s for s in gen(tier, rng) if "variants" not in s and "/cancel@" not in s.get("fam", "")]
@@ -118,7 +134,11 @@ def gen_c16(tier, rng):
             yield sc
 
 
-PROPS["C16"] = {"monitor": "C16", "generators": [gen_c16], "workers": ["pair"]}
+PROPS["C16"] = {"parts": [
+    {"monitor": "C16", "generators": [gen_c16], "workers": ["pair"]},
+    # an application script may be a WSGI application: the two adapters of each kind, side by side
+    {"monitor": "C16W", "generators": [gen_wsgi.gen_c16w], "runner": "wsgi", "workers": ["wsgi"], "selftest": "C16W"},
+]}
 
 
 def gen_everything_else(tier, rng):
@@ -136,6 +156,9 @@ def gen_everything_else(tier, rng):
 
 
 PROPS["C04"]["generators"] = PROPS["C04"]["generators"] + [gen_everything_else]
+# (the WebSocket design's NoCrash is C04's statement for that stream: "no client input makes the handler raise")
+PROPS["C04"]["design"] = [{"module": "MC_WSock", "cfg": "MC_WSock_quick.cfg"}]
+PROPS["C04"]["deviations"] = [_wsdev("DevAfterClose", "NoCrash"), _wsdev("DevClosedLate", "NoCrash")]
 PROPS["C17"] = {"monitor": "C17", "adapter": "c17",
                 "design": [{"module": "Wsgi", "cfg": "MC_Wsgi.cfg"}],
                 "technique": "TLA+ oracle (Wsgi.tla) model-checked by TLC + TLC validation of real executions of every enumerated case"}
@@ -153,7 +176,7 @@ PROPS["C14"] = {"monitor": "C14", "generators": [gen_worker.gen_c14], "runner": 
                 "deviations": [_wdev("DevFailedSwallowed", "NothingServedAfterFailure")]}
 PROPS["C15"] = {"parts": [
     {"monitor": "C15", "generators": [gen_worker.gen_c15], "runner": "worker", "design": WORKER_DESIGN,
-     "deviations": [_wdev("DevWaitClosed", "BoundedShutdown")], "selftest": "C15"},
+     "deviations": [_wdev("DevWaitClosed", "BoundedShutdown"), _wdev("DevShutdownStartTO", "BoundedShutdown")], "selftest": "C15"},
     {"monitor": "C15C", "generators": [gen_shutdown.gen_c15c, gen_h2.gen_h2_faults], "selftest": "C15C"},
 ]}
 PROPS["C18"] = {"parts": [
